@@ -1285,6 +1285,9 @@ done:
         return ARES_ENOMEM;
       }
       *bin_len = mylen;
+    } else {
+      /* The caller only wanted the string skipped */
+      ares_buf_destroy(binbuf);
     }
   }
 
